@@ -60,6 +60,7 @@ structure Handler where
 def Script.isComment : Script → Bool | .comment _ => true | _ => false
 def Script.isText : Script → Bool | .text _ => true | _ => false
 def Script.isElement : Script → Bool | .element _ => true | _ => false
+def Script.isDoctype : Script → Bool | .doctype _ => true | _ => false
 
 /-- rewrite_controller.rs:11 `ElementDescriptor`. -/
 structure ElementDescriptor where
@@ -351,7 +352,7 @@ def step (H : List Handler) (enc : Enc) (s : St) : SrcToken → St × Bytes
   | .doctype raw =>
     let f := flushPendingText H enc s
     let s := f.1
-    if anyActive H (fun | .doctype _ => true | _ => false) s.counts then
+    if anyActive H Script.isDoctype s.counts then
       let r := forEachActive H pickDoctype (fun i => s.counts i > 0) s { raw := raw }
       (r.1, f.2 ++ (if r.1.emission then r.2.intoBytes else []))
     else (s, f.2 ++ (if s.emission then raw else []))
